@@ -162,6 +162,25 @@ def _workload(case: dict, paths: dict, max_workers, out: dict) -> None:
         out["nz2"] = [orc.sampled_state(x) for x in nz2]
         nz3 = [yaw.RedshiftData.from_corrfuncs(c, unk_corr=u) for c, u in zip(cross, auto_unk)]
         out["nz3"] = [orc.sampled_state(x) for x in nz3]
+    # state must not survive between measurements: build, sample and release alternating
+    # measurements a few times; every repetition must reproduce the first sampling bit for bit
+    del cross, auto, hist
+    rk_ = dict(rk)
+    first: dict = {}
+    for rep in range(3):
+        for label in ("cross", "auto"):
+            if label == "cross":
+                cfs = yaw.crosscorrelate(config, cats["ref"], cats["unk"], **rk_, **kw)
+            else:
+                cfs = yaw.autocorrelate(config, cats["ref"], cats["rref"], count_rr=case["count_rr"], **kw)
+            st = [orc.sampled_state(cf.sample()) for cf in cfs]
+            del cfs
+            if label not in first:
+                first[label] = st
+            elif orc.states_equal(first[label], st) is not None:
+                out.setdefault("repeat_mismatch", []).append(f"{label} repetition {rep}: {orc.states_equal(first[label], st)}")
+    out["repeat.cross"] = first["cross"]
+    out["repeat.auto"] = first["auto"]
 
 
 def _cov_problems(samples: np.ndarray, cov: np.ndarray, err: np.ndarray, label: str) -> str | None:
@@ -238,6 +257,13 @@ def evaluate(case: dict, ref: dict, got: dict, cache_ref: dict) -> tuple[dict | 
                     f"{kind}[{i}].sample().samples differ from leave-one-out values (row permutation: {perm})",
                     probes,
                 )
+    # (a') repeated build/sample/release cycles reproduce the first sampling, which is the one checked above
+    if got.get("repeat_mismatch"):
+        return sig("repeated_measurement", "result_depends_on_earlier_measurements"), "; ".join(got["repeat_mismatch"][:3]), probes
+    for kind in ("cross", "auto"):
+        msg = orc.states_equal(got[f"{kind}.sample"], got[f"repeat.{kind}"])
+        if msg:
+            return sig("repeated_measurement", "result_depends_on_earlier_measurements"), f"{kind}: sampling after release of earlier measurements differs: {msg}", probes
     # (b) RedshiftData
     dz = np.diff(np.asarray(scene["edges"], dtype="f8"))
     for i, (c, a) in enumerate(zip(ref["cross"], ref["auto"])):
